@@ -189,6 +189,10 @@ def interactions(repo, chk):
             vals = {ast.unparse(key): ast.unparse(val) for key, val in zip(dc[0].elt.keys, dc[0].elt.values)}
             okm = vals.get("'Feature'") == k and f'np.median({v})' in vals.values() and not g.ifs
     chk.expect(okm, 'C18.4e', 'R15', fn.site(dc[0]) if dc else fn.site(), ast.unparse(dc[0]).replace('\n', ' ')[:160] if dc else 'np.median per constituent', 'per constituent: median of the collected scores', 'the aggregated table must hold np.median of the collected scores for every constituent')
+    wr = [c for c in calls(fn, attr='to_csv') if 'feature_singles_aggregated.tsv' in ast.unparse(c)]
+    agg = [n for n in own_nodes(fn.node) if isinstance(n, ast.Assign) and isinstance(n.targets[0], ast.Name) and dc and any(x is dc[0] for x in ast.walk(n.value))]
+    chk.expect(len(wr) == 1 and agg and isinstance(wr[0].func.value, ast.Name) and wr[0].func.value.id == agg[0].targets[0].id, 'C18.4g', 'origin', fn.site(wr[0]) if wr else fn.site(), ast.unparse(wr[0]).replace('\n', ' ')[:100] if wr else 'to_csv(feature_singles_aggregated.tsv)',
+               'the aggregated table is written to feature_singles_aggregated.tsv', 'feature_singles_aggregated.tsv must be written from the per-constituent table')
     it2 = term_of(fn, row_loop.iter, inline=True)
     chk.expect(it2 == E(f'{df}.iterrows()'), 'C18.4f', 'R13', fn.site(row_loop), ast.unparse(row_loop.iter), 'every row of the summary is visited', 'all rows of the feature summary must be visited')
 
